@@ -43,6 +43,9 @@ def cases(ctx):
                 if N >= 1:
                     yield "halton_power", {"n": j + (k % 2), "N": N, "base_index": j, "seed": ctx.subseed("hp", j, k, N)}
             k += 1
+    # very many parameters (one prime base each): 2000, and around the first 9505 / 10000 primes
+    for n_ in ctx.pick([2000, 9506, 10001], [1200, 2000, 5000, 9505, 9506, 10001, 20011]):
+        yield "halton_power", {"n": n_, "N": 3, "base_index": n_ - 1, "seed": ctx.subseed("hw", n_)}
     for i in range(ctx.pick(300, 30000)):
         yield "uniform", {"seed": ctx.subseed("u", i)}
     for i in range(ctx.pick(200, 20000)):
@@ -228,6 +231,8 @@ def run_case(ctx, name, params):
             return
         if len(vecs) != N:
             ctx.violation("halton/count", "returned %d points for N=%d" % (len(vecs), N), wit())
+            return
+        if not shape_ok(ctx, "halton", vecs, n, wit):
             return
         pr = oracles.primes(n)
         idx = sorted({1, max(1, N - 2), max(1, N - 1), N} | {r.randint(1, N) for _ in range(40)})
